@@ -24,9 +24,12 @@ func (e *executor[R]) PreExecute(exec policy.ExecutionInternal[R]) *common.Polic
 				ExecutionAttempt: exec,
 			})
 		}
-		// If the execution was canceled while waiting, return the cancellation result rather than the context's error
-		if canceled, cancelResult := exec.IsCanceledWithResult(); canceled {
-			return cancelResult
+		// If the wait was interrupted because the execution was canceled, return the cancellation result rather than the
+		// context's error. A rejection remains a rejection: ErrFull is returned as is.
+		if !errors.Is(err, ErrFull) {
+			if canceled, cancelResult := exec.IsCanceledWithResult(); canceled {
+				return cancelResult
+			}
 		}
 		return internal.FailureResult[R](err)
 	}
